@@ -102,6 +102,7 @@ func VerifC05NoDecs() {
 	r.applySpace(b, "Before", dst.SpaceType(sb))
 	got := vfBreaks(r, mark, prevEnd, r.cursor)
 	vfAssert(vfCap2(got) == vfIte(sa >= sb, sa, sb), "non-additive-max")
+	vfAssert(vfCap2(vfBreaksAfter(r, mark, prevEnd, r.cursor)) == vfIte(sa >= sb, sa, sb), "break-behind-previous-end")
 	vfAssert((vfCap2(got) == 2) == vfOr(sa == 2, sb == 2), "blank-line-iff-emptyline")
 }
 
@@ -186,6 +187,10 @@ func vfC05Siblings(r *FileRestorer, a, b dst.Node, kA, kB []int, sa, sb int, bad
 	}
 	got := vfBreaks(r, mark, prevEnd, tokB)
 	vfAssert(vfCap2(got) == vfCap2(exp), "C05-rule/token")
+	if len(kA) == 0 && len(kB) == 0 {
+		// spacing only: the breaks lie strictly behind the first sibling's end (see vfBreaksAfter)
+		vfAssert(vfCap2(vfBreaksAfter(r, mark, prevEnd, tokB)) == vfCap2(exp), "C05-rule/break-behind-previous-end")
+	}
 }
 
 func vfKindsOf(d dst.Decorations) []int {
